@@ -38,6 +38,7 @@ THEOREMS = ['C11_inverse_den', 'C11_inverse_complcell_rejects',
             'C11_parse_sound', 'C11_lex_sound', 'C11_get_ast_sound',
             'C11_split_card', 'C11_card_geometry',
             'C11_get_ast_accepts_iff',
+            'C11_handover_no_complement', 'C11_handover_loop',
             'C11_nested_refuted']
 TRUSTED = [
     'hand-written model coq/C11/Model.v: lexer + pushdown precedence parser '
@@ -852,7 +853,36 @@ def run(res, tier, seed, proofs_ok):
     res.extra['timings_s'] = {k: round(v, 1) for k, v in timings.items()}
 
 
-def gen_table(rng):
+def has_compl(tree):
+    if tree[0] == '^':
+        return True
+    if tree[0] == 's':
+        return False
+    return has_compl(tree[1]) or has_compl(tree[2])
+
+
+# (cells in dictionary order, lattice cells, target, the complement-free tree
+# MCNP's reading gives for the target — hand-written)
+TABLE_CORPUS = [
+    ({1: '-1.2 +3', 2: '#1'}, (), 2, (':', L(1, 2), L(-3))),
+    ({1: '+1.1:-2.3', 2: '#1 +4.5'}, (), 2,
+     ('*', ('*', L(-1, 1), L(2, 3)), L(4, 5))),
+    ({1: '1.1 -2', 2: '#1 : +3.4', 3: '#2 #1'}, (), 3,
+     ('*', ('*', ('*', L(1, 1), L(-2)), L(-3, 4)), (':', L(-1, 1), L(2)))),
+    ({3: '#2 #1', 2: '#1 : +3.4', 1: '1.1 -2'}, (), 3,
+     ('*', ('*', ('*', L(1, 1), L(-2)), L(-3, 4)), (':', L(-1, 1), L(2)))),
+    ({1: '+007.1 -08', 2: '# 1:#(+007.1)'}, (), 2,
+     (':', (':', L(-7, 1), L(8)), L(-7, 1))),
+    # complement of a lattice cell: first surface of the cell and its opposite,
+    # facet kept
+    ({5: '-7.1 +7.2 -8', 6: '#5 9'}, (5,), 6,
+     ('*', ('*raw', L(-7, 1), L(7, 1)), L(9))),
+    ({5: '(+4.3:1) -8', 6: '1:#5'}, (5,), 6,
+     (':', L(1), ('*raw', L(4, 3), L(-4, 3)))),
+]
+
+
+def gen_table(rng, facets=False):
     '''acyclic table: cell k may reference cells listed before it'''
     n_cells = rng.randint(2, 5)
     ids = list(dict.fromkeys(rng.randint(1, 40) for _ in range(n_cells)))
@@ -867,29 +897,71 @@ def gen_table(rng):
                 break
         else:
             e = ('s', 1, None)
-        exprs[cid] = e
+        exprs[cid] = add_facets(rng, e) if facets else e
     return ids, exprs
+
+
+def add_facets(rng, e):
+    '''give half of the literals a facet suffix'''
+    if e[0] == 's':
+        return ('s', e[1], rng.randint(1, 6)) if rng.random() < 0.5 else e
+    if e[0] in ('*', ':'):
+        return (e[0], add_facets(rng, e[1]), add_facets(rng, e[2]))
+    if e[0] in ('#', 'p'):
+        return (e[0], add_facets(rng, e[1]))
+    return e
 
 
 def run_complement(res, rng, n_tab):
     cases, meta = [], []
     loop_cases, loop_meta = [], []
-    for i in range(n_tab):
-        ids, exprs = gen_table(rng)
-        lattice = {cid for cid in ids[:-1] if rng.random() < 0.1}
-        fault = None
-        if rng.random() < 0.08:
-            fault = rng.choice(['dangling', 'cycle'])
-            extra = ('#c', 99 if fault == 'dangling' else ids[-1])
-            exprs[ids[0]] = ('*', exprs[ids[0]], extra)
-        # dictionary order of the table is shuffled: the loop of
-        # ConstructVolumeT4 must not depend on it
-        order = ids[:]
-        rng.shuffle(order)
-        texts = {cid: render(exprs[cid], random_layout(rng))
-                 for cid in order}
-        target = ids[-1]
+    for i in range(len(TABLE_CORPUS) + n_tab):
+        expected = None
+        if i < len(TABLE_CORPUS):
+            # hand-written tables: facets, '+', leading zeros, lattice cell
+            ctexts, clat, target, expected = TABLE_CORPUS[i]
+            ids = order = list(ctexts)
+            texts, lattice, fault = dict(ctexts), set(clat), None
+            exprs = {cid: c11_refparse.parse(t) for cid, t in texts.items()}
+            res.count('complement:corpus')
+        else:
+            ids, exprs = gen_table(rng, facets=i % 3 == 0)
+            lattice = {cid for cid in ids[:-1] if rng.random() < 0.1}
+            fault = None
+            if rng.random() < 0.08:
+                fault = rng.choice(['dangling', 'cycle'])
+                extra = ('#c', 99 if fault == 'dangling' else ids[-1])
+                exprs[ids[0]] = ('*', exprs[ids[0]], extra)
+            # dictionary order of the table is shuffled: the loop of
+            # ConstructVolumeT4 must not depend on it
+            order = ids[:]
+            rng.shuffle(order)
+            lay = random_layout(rng)
+            if i % 4 == 0:
+                lay['plus'] = True
+            texts = {cid: render(exprs[cid], lay) for cid in order}
+            target = ids[-1]
+        if any('.' in t for t in texts.values()):
+            res.count('complement:tables-with-facets')
+        if any('+' in t for t in texts.values()):
+            res.count('complement:tables-with-plus-sign')
         out = impl_complement(texts, lattice, target)
+        if expected is not None and out != ('ok', expected):
+            res.violation('impl-violation',
+                          f'pot_complement on cell {target} of {texts} '
+                          f'(lattice {sorted(lattice)}) should give '
+                          f'{expected}, implementation gives {out}',
+                          {'input': {'cells': texts, 'lattice': sorted(lattice),
+                                     'target': target},
+                           'expected': expected, 'observed': out},
+                          found_input=True)
+        if out[0] == 'ok' and has_compl(out[1]):
+            res.violation('impl-violation',
+                          f"hand-over: a '^' node is left after pot_complement "
+                          f'on cell {target} of {texts}: {out[1]}',
+                          {'input': {'cells': texts, 'lattice': sorted(lattice),
+                                     'target': target}, 'observed': out},
+                          found_input=True)
         parsed = {cid: impl_get_ast(t)[1] for cid, t in texts.items()}
         table = clist(cpair(cn(cid), f'(mkCell {coq_ast(parsed[cid])} '
                                      f'{cbool(cid in lattice)})')
@@ -908,6 +980,14 @@ def run_complement(res, rng, n_tab):
                                       for cid, tree in lout[1]) + ')'
             else:
                 want = f'(Err {lout[1]})'
+            if lout[0] == 'ok' and any(has_compl(t) for _, t in lout[1]):
+                res.violation('impl-violation',
+                              "hand-over: a '^' node is left after the "
+                              f'complement loop on {texts}: {lout[1]}',
+                              {'input': {'cells': texts,
+                                         'lattice': sorted(lattice),
+                                         'target': target}, 'observed': lout},
+                              found_input=True)
             loop_cases.append(cpair(ltable, want))
             loop_meta.append((texts, sorted(lattice), lout))
             res.count('loop:' + (lout[0] if lout[0] == 'ok' else lout[1]))
